@@ -4,3 +4,4 @@ pub mod raw;
 pub mod units;
 pub mod psim;
 pub mod slog;
+pub mod rk;
